@@ -114,6 +114,9 @@ inductive Src | img | gest | c1 | c2 | c3
   deriving DecidableEq, Repr, Inhabited
 inductive Gain | wr | wg1 | wg2 | wb
   deriving DecidableEq, Repr, Inhabited
+/-- the three gains of `wb_postscale` -/
+inductive Gain3 | wr | wg | wb
+  deriving DecidableEq, Repr, Inhabited
 
 /-- `slice(start, None, step)` -/
 structure Slc where
@@ -149,6 +152,10 @@ def recompPlane : Cfa → Site → Plane
 def prescaleGain : Cfa → Site → Gain
   | .rggb, .tl => .wr | .rggb, .tr => .wg1 | .rggb, .bl => .wg2 | .rggb, .br => .wb
   | .bggr, .tl => .wb | .bggr, .tr => .wg1 | .bggr, .bl => .wg2 | .bggr, .br => .wr
+
+/-- white-balance gain applied to each channel of a demosaicked image (`wb_postscale`) -/
+def postscaleGain : Chan → Gain3
+  | .red => .wr | .green => .wg | .blue => .wb
 
 def Plane.gain : Plane → Gain
   | .r => .wr | .g1 => .wg1 | .g2 => .wg2 | .b => .wb
